@@ -269,13 +269,13 @@ def demo : List Op :=
   [.setCurrent "u" (.fresh [3, 4]) true, .setCurrent "beta" (.scalar 1) true, .commit false, .toDict]
 
 example : Inv (run init demo) := C17_reachable_inv demo
-example : (run init demo).escaped = [3, 4, 0] ∧ (run init demo).imported = [] ∧ (run init demo).importedH = [] ∧
+example : (run init demo).escaped = [3, 4, 0] ∧ (run init demo).imported = [] ∧
     reach (run init demo) = [1, 2] := by decide
 example : lookup "u" (observe (run init demo)).history = some [PVal.arr [3, 4]] := by decide
 
 /-- `C17_read_indep_of_scribble` applies to the exported batch (address 4), and the reads it protects are not trivial -/
 example : observe (step (run init demo) (.scribble 4 [-9, -9])).1 = observe (run init demo) :=
-  C17_read_indep_of_scribble _ 4 [-9, -9] (C17_reachable_inv demo) (by decide) (by decide) (by decide)
+  C17_read_indep_of_scribble _ 4 [-9, -9] (C17_reachable_inv demo) (by decide) (by decide)
 
 /-- the exclusion of `imported` is necessary: with `copy=False` the same write is visible (that is the opt-in) -/
 example : observe (run init [.setCurrent "u" (.fresh [3, 4]) false, .scribble 0 [-9, -9]]) ≠
@@ -286,10 +286,30 @@ example : observe (run init [.setCurrent "u" (.fresh [3, 4]) false, .scribble 0 
 def demoShare : List Op := [.setCurrent "u" (.fresh [3, 4]) false, .commit false]
 example : (run init demoShare).imported = [0] ∧ lookup "u" (run init demoShare).current = some (Val.ref 0) := by decide
 example : (observe (step (run init demoShare) (.scribble 0 [-9, -9])).1).history = (observe (run init demoShare)).history :=
-  (C17_history_indep_of_scribble _ 0 [-9, -9] (C17_reachable_inv demoShare) (by decide) (by decide)).1
+  (C17_history_indep_of_scribble _ 0 [-9, -9] (C17_reachable_inv demoShare) (by decide)).1
 example : lookup "u" (observe (step (run init demoShare) (.scribble 0 [-9, -9])).1).current = some (PVal.arr [-9, -9]) ∧
           lookup "u" (observe (step (run init demoShare) (.scribble 0 [-9, -9])).1).history = some [PVal.arr [3, 4]] := by
   decide
+
+/-- export → re-import of the exported dictionary itself (its arrays are addresses 3 and 4) → the caller overwrites
+    both: `C17_import_never_aliases` applies (the import succeeds), 3 and 4 stay caller-held, nothing internal points
+    to them, and the writes change no read -/
+def demoImport : List Op :=
+  demo ++ [.updateFromDict (some [("u", .held 3), ("beta", .scalar 1)]) (some [("u", [.held 4]), ("beta", [.scalar 1])])]
+example : (step (run init demo) (.updateFromDict (some [("u", .held 3), ("beta", .scalar 1)])
+    (some [("u", [.held 4]), ("beta", [.scalar 1])]))).2 = .unit := by decide
+example : (run init demoImport).escaped = [3, 4, 0] ∧ (run init demoImport).imported = [] ∧
+    reach (run init demoImport) = [5, 6] := by decide
+example : observe (run init (demoImport ++ [.scribble 3 [-9, -9], .scribble 4 [-9, -9]])) = observe (run init demoImport) ∧
+    lookup "u" (observe (run init demoImport)).history = some [PVal.arr [3, 4]] := by decide
+
+/-- `C17_full` covers that sequence too (the dictionary is passed back in before it is overwritten), but not one in
+    which the caller overwrites an array and then passes it in (`okSeq` is false: the caller changed its own input) -/
+example : trace init (demoImport ++ [.scribble 3 [-9, -9], .scribble 4 [-9, -9], .getHistory "u" (some 0) false,
+      .getCurrent (some "u"), .computeResults]) =
+    trace init (demoImport ++ [.getHistory "u" (some 0) false, .getCurrent (some "u"), .computeResults]) :=
+  C17_full _ (by decide)
+example : okSeq [] (demo ++ [.scribble 3 [-9, -9], .updateFromDict (some [("u", .held 3)]) none]) = false := by decide
 
 /-- `C17_full` on a sequence with interleaved writes to everything the caller was given -/
 def demoFull : List Op :=
@@ -298,7 +318,7 @@ def demoFull : List Op :=
            .logw 1, .getLastHistory "u"]
 
 example : trace init demoFull = trace init (demoFull.filter (fun o => !o.isScribble)) :=
-  C17_full demoFull (by decide)
+  C17_full_clean demoFull (by decide)
 example : (trace init demoFull).length = 10 := by decide
 
 /-- `C17_commit_appends_one` / `C17_history_prefix_stable`: a second commit on `demo` -/
